@@ -34,7 +34,7 @@ NIX_CANARY(Variant_maybe_deallocte_string) __CPROVER_assigns(self->dtype) VAR_FR
 __CPROVER_requires(VAR_IN(fn, self)) \
 __CPROVER_ensures(/*type-is-set*/ self->dtype == TAG) \
 __CPROVER_ensures(/*value-is-stored*/ self->FIELD == value) \
-__CPROVER_ensures(/*previous-string-released*/ VAR_OLD_FREED) \
+__CPROVER_ensures(/*previous-string-released*/ NIX_SEL(fn, VAR_OLD_FREED, 1)) \
 NIX_CANARY(fn) __CPROVER_assigns(self->dtype, self->FIELD) VAR_FREES_OLD
 
 void Variant_set_bool(Variant *self, bool value)
@@ -56,13 +56,13 @@ void Variant_set_double(Variant *self, double value)
 __CPROVER_requires(VAR_IN(Variant_set_double, self))
 __CPROVER_ensures(/*type-is-set*/ self->dtype == DataType_Double)
 __CPROVER_ensures(/*value-is-stored*/ self->v_double == value || (isnan(self->v_double) && isnan(value)))
-__CPROVER_ensures(/*previous-string-released*/ VAR_OLD_FREED)
+__CPROVER_ensures(/*previous-string-released*/ NIX_SEL(Variant_set_double, VAR_OLD_FREED, 1))
 NIX_CANARY(Variant_set_double) __CPROVER_assigns(self->dtype, self->v_double) VAR_FREES_OLD
 ;
 void Variant_set_none(Variant *self, none_t _unnamed1)
 __CPROVER_requires(VAR_IN(Variant_set_none, self))
 __CPROVER_ensures(/*type-is-nothing*/ self->dtype == DataType_Nothing && self->v_bool == false)
-__CPROVER_ensures(/*previous-string-released*/ VAR_OLD_FREED)
+__CPROVER_ensures(/*previous-string-released*/ NIX_SEL(Variant_set_none, VAR_OLD_FREED, 1))
 NIX_CANARY(Variant_set_none) __CPROVER_assigns(self->dtype, self->v_bool) VAR_FREES_OLD
 ;
 
@@ -111,14 +111,43 @@ __CPROVER_ensures(/*supported-set*/ RV <==> (dtype == DataType_Bool || dtype == 
 NIX_CANARY(Variant_supports_type) __CPROVER_assigns()
 ;
 
-/* set(const char *value, size_t len): owns a NUL-terminated copy of value[0..len) */
-void Variant_set_cstr_len(Variant *self, const char *value, const size_t len)
-__CPROVER_requires(VAR_IN(Variant_set_cstr_len, self))
+/* set(const char *value, size_t len): owns a NUL-terminated copy of value[0..len); an allocation failure throws
+   std::bad_alloc and leaves the Variant as it was */
+NIX_THROWS void Variant_set_cstr_len(Variant *self, const char *value, const size_t len)
+__CPROVER_requires(VAR_IN(Variant_set_cstr_len, self) && nix_exc == EXC_NONE)
 __CPROVER_requires(len < VAR_STRMAX && NIX_SEL(Variant_set_cstr_len, __CPROVER_is_fresh(value, len ? len : 1), __CPROVER_r_ok(value, len ? len : 1)))
-__CPROVER_ensures(/*type-is-string*/ self->dtype == DataType_String)
-__CPROVER_ensures(/*terminated*/ self->v_string[len] == 0)
-__CPROVER_ensures(/*bytes-copied*/ ghost_k < len ==> self->v_string[ghost_k] == value[ghost_k])
-NIX_CANARY(Variant_set_cstr_len) __CPROVER_assigns(self->dtype, self->v_string) VAR_FREES_OLD
+__CPROVER_ensures(/*only-allocation-failure-throws*/ nix_exc == EXC_NONE || nix_exc == EXC_bad_alloc)
+__CPROVER_ensures(/*type-is-string*/ nix_exc == EXC_NONE ==> self->dtype == DataType_String)
+__CPROVER_ensures(/*terminated*/ nix_exc == EXC_NONE ==> self->v_string[len] == 0)
+__CPROVER_ensures(/*bytes-copied*/ (nix_exc == EXC_NONE && ghost_k < len) ==> self->v_string[ghost_k] == value[ghost_k])
+__CPROVER_ensures(/*unchanged-on-allocation-failure*/ nix_exc == EXC_bad_alloc ==> (self->dtype == __CPROVER_old(self->dtype) && self->v_string == __CPROVER_old(self->v_string)))
+NIX_CANARY(Variant_set_cstr_len) __CPROVER_assigns(nix_exc, self->dtype, self->v_string) VAR_FREES_OLD
+;
+/* set(const char *value): strlen + set(value, len).  ASSUMED contract (the strlen loop is not verified): owns a copy */
+NIX_THROWS void Variant_set_cstr(Variant *self, const char *value)
+__CPROVER_requires(VAR_VALID(self) && nix_exc == EXC_NONE)
+__CPROVER_ensures(nix_exc == EXC_NONE || nix_exc == EXC_bad_alloc)
+__CPROVER_ensures(nix_exc == EXC_NONE ==> (self->dtype == DataType_String && self->v_string != NULL && self->v_string != value))
+__CPROVER_ensures(nix_exc == EXC_bad_alloc ==> (self->dtype == __CPROVER_old(self->dtype) && self->v_string == __CPROVER_old(self->v_string)))
+__CPROVER_assigns(nix_exc, self->dtype, self->v_string) VAR_FREES_OLD
+;
+#define DATATYPE_SUPPORT_NOT_IMPLEMENTED 0
+#define VAR_SUPPORTED(d) ((d) == DataType_Bool || (d) == DataType_Int32 || (d) == DataType_UInt32 || (d) == DataType_Int64 || (d) == DataType_UInt64 || \
+                          (d) == DataType_Double || (d) == DataType_String || (d) == DataType_Nothing)
+/* void assign_variant_from(const Variant &other): the copy path (copy constructor, operator=, swap) */
+NIX_THROWS void Variant_assign_variant_from(Variant *self, const Variant *other)
+__CPROVER_requires(VAR_FRESH(self) && __CPROVER_is_fresh(other, sizeof(Variant)) && VAR_SUPPORTED(other->dtype) && nix_exc == EXC_NONE)
+__CPROVER_requires(other->dtype != DataType_String || __CPROVER_is_fresh(other->v_string, VAR_STRMAX))
+__CPROVER_ensures(/*only-allocation-failure-throws*/ nix_exc == EXC_NONE || nix_exc == EXC_bad_alloc)
+__CPROVER_ensures(/*type-copied*/ nix_exc == EXC_NONE ==> self->dtype == other->dtype)
+__CPROVER_ensures(/*value-copied*/ nix_exc == EXC_NONE ==> (
+    (other->dtype == DataType_Bool ==> self->v_bool == other->v_bool) && (other->dtype == DataType_Int32 ==> self->v_int32 == other->v_int32) &&
+    (other->dtype == DataType_UInt32 ==> self->v_uint32 == other->v_uint32) && (other->dtype == DataType_Int64 ==> self->v_int64 == other->v_int64) &&
+    (other->dtype == DataType_UInt64 ==> self->v_uint64 == other->v_uint64) &&
+    (other->dtype == DataType_Double ==> (self->v_double == other->v_double || (isnan(self->v_double) && isnan(other->v_double))))))
+__CPROVER_ensures(/*string-is-an-own-copy-not-shared*/ (nix_exc == EXC_NONE && other->dtype == DataType_String) ==> (self->v_string != NULL && self->v_string != other->v_string))
+__CPROVER_ensures(/*source-untouched*/ other->dtype == __CPROVER_old(other->dtype) && other->v_string == __CPROVER_old(other->v_string))
+NIX_CANARY(Variant_assign_variant_from) __CPROVER_assigns(nix_exc, self->dtype, self->v_bool, self->v_double, self->v_uint32, self->v_int32, self->v_uint64, self->v_int64, self->v_string) VAR_FREES_OLD
 ;
 #undef RV
 #endif
